@@ -209,6 +209,16 @@ fn one_cli(id: &str, t: &mut Tape, dir: &Path, probes: &mut std::collections::BT
                 return Some(Viol { sig: "realfs:cli:lefrw/exit".into(), detail: e });
             }
             *probes.entry("cli_lefrw_runs".into()).or_insert(0) += 1;
+            // and in place: the output path is the input path
+            std::fs::write(p("cli_inplace.lef"), &text).unwrap();
+            if let Err(e) = run("lefrw", &[&p("cli_inplace.lef"), &p("cli_inplace.lef")]) {
+                return Some(Viol { sig: "realfs:cli:lefrw-inplace/exit".into(), detail: e });
+            }
+            match lef21::LefLibrary::open(p("cli_inplace.lef")) {
+                Ok(l2) if l2 == lib => {}
+                Ok(_) => return Some(Viol { sig: "realfs:cli:lefrw-inplace/value".into(), detail: "lefrw with the same path as input and output leaves a file that reads back to a different library".into() }),
+                Err(e) => return Some(Viol { sig: "realfs:cli:lefrw-inplace/reread".into(), detail: format!("lefrw in place leaves a file the reader rejects: {:?}", e) }),
+            }
             match lef21::LefLibrary::open(p("cli_out.lef")) {
                 Ok(l2) if l2 == lib => None,
                 Ok(_) => Some(Viol { sig: "realfs:cli:lefrw/value".into(), detail: "lefrw's output reads back to a different library than its input".into() }),
